@@ -155,6 +155,26 @@ fn main() {
             std::process::exit(2);
         }
     }
+    // entry-of-kernel monitors of the vector fields (hook H6): largest lane excess seen per kernel
+    with_avx2!({
+        let mut all: Vec<(&'static str, f64, u64)> = curve25519_dalek::verif::monitor::maxima();
+        for v in rayon::broadcast(|_| curve25519_dalek::verif::monitor::maxima()) {
+            all.extend(v);
+        }
+        let mut agg: std::collections::BTreeMap<&'static str, (f64, u64)> = Default::default();
+        for (k, e, n) in all {
+            let a = agg.entry(k).or_insert((f64::MIN, 0));
+            a.0 = a.0.max(e);
+            a.1 += n;
+        }
+        let m: serde_json::Map<String, serde_json::Value> = agg
+            .iter()
+            .map(|(k, (e, n))| (k.to_string(), json!({"max_excess_or_bits": (e * 10000.0).round() / 10000.0, "calls": n})))
+            .collect();
+        if !m.is_empty() {
+            ctx.bound("vector_kernel_monitors", serde_json::Value::Object(m));
+        }
+    });
     let j = ctx.to_json(config_json(), t0.elapsed().as_secs_f64());
     let s = serde_json::to_string_pretty(&j).unwrap();
     match out {
